@@ -199,11 +199,12 @@ def encodePairs : List (Str × Str) → Option (List (Bytes × Bytes))
 def encodeCookies : List Cookie.CookieRec → Option (List (Bytes × Bytes))
   | [] => some []
   | c :: rest =>
-    match encodeAscii (Cookie.line c), encodeCookies rest with
+    match encodeLatin1 (Cookie.line c), encodeCookies rest with
     | some l, some r => some ((Gen.Gateway.setCookieNameBytes, l) :: r)
     | _, _ => none
 
-/-- `list_headers(as_bytes=True)`; `none` = UnicodeEncodeError (key/value not Latin-1, cookie line not ASCII) -/
+/-- `list_headers(as_bytes=True)`; `none` = UnicodeEncodeError (key/value or cookie line not Latin-1; `Cookie.__bytes__` encodes as Latin-1
+like every other header since the C04 repair) -/
 def listHeadersBytes (st : Hdrs) (cookies : List Cookie.CookieRec) : Option (List (Bytes × Bytes)) :=
   match encodePairs st, encodeCookies cookies with
   | some a, some b => some (a ++ b)
